@@ -16,6 +16,11 @@ CHECKS.update({
          'Generated-input exploration with a two-sided oracle for the parameters digest and a soundness oracle for tampering; thorough tier enumerates every offset of ten small packets.',
          'Trusts the strict reader in pbt/pkt.py as the definition of the signed portion, and pycryptodome for verification.', '6/C02'),
 })
+CHECKS.update({
+ 'C03': ('Hypothesis-generated operation histories (express/data/nack/advance/cancel/shutdown) run on a virtual-time asyncio loop against both front-ends; oracle: reference pending-Interest model giving the allowed outcome set per Interest, plus no-internal-error / nothing-left-pending / late-packet-inert / fresh-Interest invariants',
+         'Model-based generated histories with the harness owning clock and schedule: validator-outlives-deadline, cancel-then-late-packet and packet-at-deadline interleavings are reached deterministically; thousands (quick) to >10^5 (thorough) histories. No exhaustiveness claim.',
+         'Trusts the reference model in pbt/checks/c03_pit.py and the virtual loop (pbt/sim/vloop.py); ties within 1 ms of a deadline accept both neighbouring outcomes; reads len(_pit)/_int_tree as a secondary observation.', '6/C03'),
+})
 NOT_YET = {}
 def main():
     props = [json.loads(l) for l in open(os.path.join(ROOT, 'properties.jsonl'))]
